@@ -57,6 +57,21 @@ Definition reviewed_unknown_sites : list (site * string) := [
   (("engine.py", "CompilationEngine.compile", "star", "TKET_EXTENSIONS"), "module level list")
 ].
 
+(* WHOLE guppylang_internals package: every set-order / hash() / id() / repr(object) / key=hash
+   site (no 'unknown' iterations here).  The first five are the anchored ones above; the others
+   are outside the modelled passes: dispositions are prose, sampled by the determinism search. *)
+Definition reviewed_all_set_sites : list (site * string) := [
+  (("cfg/analysis.py", "ForwardAnalysis.run", "pop", "<local>"), "oracle F (proved order independent)");
+  (("cfg/cfg.py", "BaseCFG.update_reachable", "pop", "<local>"), "see reviewed_set_sites");
+  (("checker/expr_checker.py", "check_call", "pop", "subst.keys() - ty.unsolved_vars"),
+   "names one uninferable parameter in a note; SUSPECT (seed dependent if two candidates exist); no program found that reaches it with more than one");
+  (("compiler/core.py", "partially_monomorphize_args", "for", "original_ty.bound_vars"), "see reviewed_set_sites");
+  (("compiler/core.py", "require_monomorphization", "for", "ty.bound_vars"), "see reviewed_set_sites");
+  (("definition/struct.py", "RawStructDef.parse", "pop", "<local>"),
+   "names one overridden field; SUSPECT; the duplicate check on the first method fires earlier in every program tried");
+  (("tys/ty.py", "_occurs", "comp", "t.unsolved_vars"), "argument of any(): order blind")
+].
+
 Fixpoint oracles_of (l : list (site * disposition)) : list string :=
   match l with
   | [] => []
